@@ -108,7 +108,7 @@ def edit_op(rng, req):
         t[a] = rng.choice(["middle", "centre", "Center", ""])
         k["to"] = t if len(axes) > 1 or rng.random() < 0.5 else t[a]
     elif choice == "unknown-boundary":
-        w = rng.choice(["reflect", "wrap", "Fill", "constant"])
+        w = rng.choice(["reflect", "wrap", "Fill", "constant", ""])      # (an empty word is no word either)
         r = rng.random()
         allax = [ax for ax, _ in c["coords"]]
         if r < 0.35:
@@ -119,7 +119,7 @@ def edit_op(rng, req):
             b[a if r < 0.7 else rng.choice(allax)] = w
             k["boundary"] = b
     elif choice == "nonnumeric-fill":
-        w = rng.choice(["abc", "nan", "1"])
+        w = rng.choice(["abc", "nan", "1", "", [], [1.0]])               # falsy junk is junk too
         r = rng.random()
         allax = [ax for ax, _ in c["coords"]]
         if r < 0.35:
